@@ -923,6 +923,7 @@ fn run_tests(
                 return Ok(true);
             }
 
+            let corrected_entries_before = corrected_entries.len();
             for (i, language_name) in attributes.languages.iter().enumerate() {
                 if !language_name.is_empty() {
                     let language = opts
@@ -1117,6 +1118,9 @@ fn run_tests(
                     parser.set_language(opts.languages.values().next().unwrap())?;
                 }
             }
+            // A test that names several languages is one entry of the corpus file: keep
+            // the correction of the first language only instead of one copy per language.
+            corrected_entries.truncate(corrected_entries_before + 1);
             test_summary.test_num += 1;
         }
         TestEntry::Group {
